@@ -11,6 +11,7 @@ import numpy as np
 
 from onnxscript import opset21 as op
 from onnxscript import script
+from onnxscript.onnx_types import FLOAT
 from onnxscript.values import Opset
 
 DOMAIN = "vf.c18"
@@ -80,6 +81,11 @@ def ref_mix(ins, at):
     return [np.maximum(x * y + x, 0).astype(np.float32)]
 
 
+def ref_mix_anytype(ins, at):
+    x, y = ins
+    return [np.maximum(x * y + x, 0).astype(x.dtype)]
+
+
 def ref_affine2(ins, at):
     x, y = ins
     t = (x * np.float32(at["scale"]) + y).astype(np.float32)
@@ -106,10 +112,20 @@ def ref_clipscale(ins, at):
     return [(c * np.float32(0.5)).astype(np.float32), np.abs(c).astype(np.float32)]
 
 
+@script(dom)
+def typed_mix(X: FLOAT[...], Y: FLOAT[...]) -> FLOAT[...]:
+    """the same body as `mix`, with a declared element type: ONNX functions are untyped, so applying the function node to
+    DOUBLE tensors is legal and must give DOUBLE results"""
+    t = X * Y
+    t = t + X
+    return op.Relu(t)
+
+
 # name -> (script function, numpy reading, attribute spec {name: kind}, n_inputs, n_outputs)
 LIB = {
     "leaky": (leaky, ref_leaky, {"alpha": "float"}, 1, 1),
     "mix": (mix, ref_mix, {}, 2, 1),
+    "typed_mix": (typed_mix, ref_mix_anytype, {}, 2, 1),
     "affine2": (affine2, ref_affine2, {"scale": "float", "axis": "axis"}, 2, 2),
     "permsum": (permsum, ref_permsum, {"perm": "perm", "keep": "bool"}, 1, 1),
     "branchy": (branchy, ref_branchy, {"thresh": "float"}, 1, 1),
